@@ -281,6 +281,14 @@ def accessor_ops(ctx, rng, xr):
     x, backing, owner = make_x(rng, xr)
     ops = O.build()
     aux = O.make_aux(rng, x, xr)
+    if rng.random() < 0.15 and getattr(aux.get("dpt"), "size", 1) > 1:
+        # dry / land points in the caller's depth array (zero or negative depth): whatever the operation returns there,
+        # the caller's array keeps them
+        aux = dict(aux)
+        dv_ = np.array(aux["dpt"].values, dtype="float64")
+        dv_.reshape(-1)[int(rng.integers(dv_.size))] = float(rng.choice([0.0, -1.5]))
+        aux["dpt"] = aux["dpt"].copy(data=dv_)
+        backing += "+dry-points"
     use_ds = rng.random() < 0.4
     ds = x.to_dataset(name="efth")
     names = list(rng.choice(list(ops), size=ctx.n(9, 14), replace=False))
